@@ -401,6 +401,10 @@ func checkC06(c *Ctx) {
 			{"ctor-in-method/handled-exception", dog + "如何造？\n\t如何新建狗？\n\t\t其名 = “内层”\n\t令甲 = 1 / 0\n\n\t拦截异常：\n\t\t输出 2\n（造）\n输出（新建狗）之名\n", `text("默认")|error:*`},
 			{"ctor-in-branch/gone-after", dog + "如果 真：\n\t如何新建狗？\n\t\t其名 = “内层”\n\t令甲 = 1\n输出（新建狗）之名\n", `text("默认")|error:*`},
 			{"ctor-in-loop/gone-after", dog + "以项遍历【1，2】：\n\t如何新建狗？\n\t\t其名 = “内层”\n\t令甲 = 1\n输出（新建狗）之名\n", `text("默认")|error:*`},
+			{"ctor-in-method/through-parameter-alias", dog + "如何造？\n\t输入型乙\n\t如何新建型乙？\n\t\t其名 = “内层”\n\t输出 1\n令前 = （新建狗）之名\n（造：狗）\n令后 = （新建狗）之名\n输出【前，后】\n", `list[text("默认"),text("默认")]|error:*`},
+			{"ctor-in-method/through-parameter-of-the-same-name", dog + "如何造？\n\t输入狗\n\t如何新建狗？\n\t\t其名 = “内层”\n\t输出 1\n令前 = （新建狗）之名\n（造：狗）\n令后 = （新建狗）之名\n输出【前，后】\n", `list[text("默认"),text("默认")]|error:*`},
+			{"ctor-in-method/through-parameter-alias-handled", dog + "如何造？\n\t输入型乙\n\t如何新建型乙？\n\t\t其名 = “内层”\n\t令甲 = 1 / 0\n\n\t拦截异常：\n\t\t输出 2\n（造：狗）\n输出（新建狗）之名\n", `text("默认")|error:*`},
+			{"ctor-in-type-method/through-parameter-alias", dog + "定义匠：\n\t其数 = 1\n\t如何改？\n\t\t输入型乙\n\t\t如何新建型乙？\n\t\t\t其名 = “内层”\n\t\t输出 1\n以（新建匠）（改：狗）\n输出（新建狗）之名\n", `text("默认")|error:*`},
 			{"ctor-with-type-in-branch/works", "如果 真：\n\t定义猫：\n\t\t其名 = “咪”\n\t如何新建猫？\n\t\t输入甲\n\t\t其名 = 甲\n\t输出（新建猫：“花”）之名\n输出 0\n", `text("花")`},
 			{"ctor-with-type-in-method/works", "如何造？\n\t定义猫：\n\t\t其名 = “咪”\n\t如何新建猫？\n\t\t输入甲\n\t\t其名 = 甲\n\t输出（新建猫：“花”）之名\n输出【（造），（造）】\n", `list[text("花"),text("花")]`},
 			{"ctor-with-type-in-body/works", dog + "如何新建狗？\n\t输入甲\n\t其名 = 甲\n输出（新建狗：“旺”）之名\n", `text("旺")`},
